@@ -1,5 +1,7 @@
 pub mod evidence;
 pub mod gen;
+pub mod lag;
+pub mod report;
 pub mod rng;
 pub mod text;
 
